@@ -82,6 +82,10 @@ pub fn ev_cases(pl: &Plain, two_d: bool, thorough: bool) -> Vec<EvCase> {
         v.push(EvCase { label: format!("pair reversed step {}", k), specs: vec![t(b), t(a)], known_root: Some(b) });
         v.push(EvCase { label: format!("pair coincident step {}", k), specs: vec![t(a), nt(a)], known_root: Some(a) });
         v.push(EvCase { label: format!("triple step {}", k), specs: vec![t(c), nt(a), t(b)], known_root: Some(c) });
+        // a terminal event among several functions firing in the same step (either side of the others)
+        v.push(EvCase { label: format!("term pair: other before step {}", k), specs: vec![t(a), t(b).term(1)], known_root: Some(a) });
+        v.push(EvCase { label: format!("term pair: other after step {}", k), specs: vec![t(b), t(a).term(1)], known_root: Some(b) });
+        v.push(EvCase { label: format!("term triple step {}", k), specs: vec![nt(c), t(b).term(1), t(a)], known_root: Some(c) });
         if let Ok(y) = sol.sol(b) {
             v.push(EvCase { label: format!("t-c and y0-c coincident step {}", k), specs: vec![t(b), EventSpec::new(EvKind::Y(0, y[0]))], known_root: Some(b) });
             v.push(EvCase { label: format!("y0-c then t-c step {}", k), specs: vec![EventSpec::new(EvKind::Y(0, y[0])), t(a), EventSpec::new(EvKind::Cos(3.0))], known_root: None });
@@ -316,9 +320,42 @@ fn run_case_c0809(cx: &Ctx, key: &str, ec: &EvCase, mode: Mode) -> CaseOut {
     let mut vs = vec![];
     let mut tags = vec![];
     let mut detail = json!(null);
+    let has_term = ec.specs.iter().any(|e| e.terminal.is_some());
     match &r.out {
-        Outcome::Ok(s) if s.status == Status::Success => {
-            detail = json!({"t_events": s.t_events, "n_steps": cx.grid.len() - 1, "first_step": cx.cfg.first_step});
+        Outcome::Ok(s) if s.status == Status::Success || (has_term && s.status == Status::UserInterrupt) => {
+            detail = json!({"t_events": s.t_events, "n_steps": cx.grid.len() - 1, "first_step": cx.cfg.first_step, "status": format!("{:?}", s.status), "t_last": s.t.last()});
+            if has_term {
+                // the run ends at the terminal event: nothing may be reported beyond the last sample,
+                // and the (t - c) events of the same step that the integration met before it are there
+                tags.push("terminal-in-multi");
+                let tl = *s.t.last().unwrap();
+                let tstop = ec.specs.iter().find(|e| e.terminal.is_some()).and_then(|e| match e.kind {
+                    EvKind::T(c) | EvKind::NegT(c) => Some(c),
+                    _ => None,
+                });
+                if s.status != Status::UserInterrupt {
+                    vs.push(("terminal-status".into(), format!("a terminal event inside the span fired but the status is {:?}", s.status)));
+                }
+                for (i, l) in s.t_events.iter().enumerate() {
+                    for t in l {
+                        if before(tl, *t, dir) && (t - tl).abs() > 1e-9 {
+                            vs.push(("beyond-end".into(), format!("event {} reported at t={:e}, beyond the last sample t={:e} at which the terminal event stopped the run", i, t, tl)));
+                        }
+                    }
+                }
+                if let Some(ts) = tstop {
+                    for (i, e) in ec.specs.iter().enumerate() {
+                        if let (None, EvKind::T(c) | EvKind::NegT(c)) = (e.terminal, &e.kind) {
+                            let c = *c;
+                            let want = before(c, ts, dir);
+                            let got = s.t_events.get(i).map(|l| l.iter().any(|t| (t - c).abs() <= 1e-9)).unwrap_or(false);
+                            if want != got {
+                                vs.push(("terminal-order".into(), format!("event {} (root {:e}) lies {} the terminal event at {:e} in the same step and is {}", i, c, if want { "before" } else { "after" }, ts, if got { "reported" } else { "not reported" })));
+                            }
+                        }
+                    }
+                }
+            }
             match mode {
                 Mode::C08 => c08(s, &cx.grid, &ec.specs, dir, cx.ymax, cx.dymax, &mut vs, &mut tags),
                 _ => c09(s, &cx.grid, &ec.specs, dir, ec.known_root, &mut vs, &mut tags),
@@ -520,10 +557,15 @@ pub fn run_check(mode: Mode, replay: Option<Value>) -> i32 {
         let mut jobs: Vec<(String, usize, usize, usize, bool, bool)> = vec![];
         for (ci, ec) in cx.cases.iter().enumerate() {
             match mode {
-                Mode::C08 | Mode::C09 => jobs.push((format!("{}:{}", cx.key, ci), ci, 0, 0, false, false)),
+                Mode::C08 | Mode::C09 => {
+                    if mode == Mode::C09 && ec.specs.iter().any(|e| e.terminal.is_some()) {
+                        continue; // C09 speaks about complete runs
+                    }
+                    jobs.push((format!("{}:{}", cx.key, ci), ci, 0, 0, false, false))
+                }
                 Mode::C10 => {
                     // reduced lattice for the differential: scale 1 only
-                    if ec.specs[0].scale != 1.0 {
+                    if ec.specs[0].scale != 1.0 || ec.specs.iter().any(|e| e.terminal.is_some()) {
                         continue;
                     }
                     if !thorough && ec.specs.len() == 1 && ec.specs[0].dir != Direction::All && !matches!(ec.specs[0].kind, EvKind::Cos(_) | EvKind::Sin(_) | EvKind::Y0Y1) {
@@ -556,26 +598,20 @@ pub fn run_check(mode: Mode, replay: Option<Value>) -> i32 {
         });
         rep.absorb(outs.into_iter().flatten().collect());
     }
-    if only.is_some() {
-        for v in &rep.violations {
-            println!("replay: VIOLATED [{}]: {}\n{}", v.sig["check"], v.msg, serde_json::to_string_pretty(&v.case).unwrap());
-        }
-        if rep.violations.is_empty() {
-            println!("replay: property holds on this case");
-        }
-        return if rep.violations.is_empty() { 0 } else { 1 };
-    }
     if mode == Mode::C08 {
         // the degenerate zero-length run: one (empty) list per event function, whatever the dimension
         for m in M6 {
             for (pi, p) in [crate::problems::base(crate::problems::Base::Harmonic(1.0)), crate::problems::base(crate::problems::Base::Decay(-1.0)), crate::problems::base(crate::problems::Base::Lin3)].iter().enumerate() {
                 for nev in 1..=4usize {
+                    let key = format!("zero:{}.{}.{}", mname(m), pi, nev);
+                    if only.as_ref().map(|o| *o != key).unwrap_or(false) {
+                        continue;
+                    }
                     let mut c = Cfg::new(m, 0.5, 0.5, &p.y0);
                     c.events = (0..nev).map(|k| EventSpec::new(EvKind::T(0.5 + k as f64))).collect();
                     let r = run(p, &c);
                     rep.evaluations += 1;
                     rep.transitions += 1;
-                    let key = format!("zero:{}.{}.{}", mname(m), pi, nev);
                     match r.sol() {
                         Some(s) => {
                             if s.t_events.len() != nev || s.y_events.len() != nev {
@@ -589,6 +625,15 @@ pub fn run_check(mode: Mode, replay: Option<Value>) -> i32 {
             }
         }
     }
+    if only.is_some() {
+        for v in &rep.violations {
+            println!("replay: VIOLATED [{}]: {}\n{}", v.sig["check"], v.msg, serde_json::to_string_pretty(&v.case).unwrap());
+        }
+        if rep.violations.is_empty() {
+            println!("replay: property holds on this case");
+        }
+        return if rep.violations.is_empty() { 0 } else { 1 };
+    }
     rep.violations.extend(regress::violations_for(id));
     rep.dims = json!({"event_alphabet": "t-c, -(t-c), y0-c (c = plain solution at the placement), y0*y1, cos(3t), sin(9t); scale {1,1e-6}; direction {All,Positive,Negative}; roots at x_k+θh_k (θ=1e-7,1/4,1/2,3/4,1-1e-7) and x_k±1e-9 for the first 4 (quick) / 6 (thorough) steps; pairs/triples of functions firing in one step in both index orders and coincident",
         "groups": groups});
@@ -596,6 +641,7 @@ pub fn run_check(mode: Mode, replay: Option<Value>) -> i32 {
         Mode::C08 => {
             rep.require("event", 1000);
             rep.require("direction-judged", 1000);
+            rep.require("terminal-in-multi", 100);
             rep.rule = "two-pass: roots placed relative to the plain run's grid; every event configuration is run (dense output on, t_eval none) and every reported event is checked: bracket, y_e = sol(t_e), |g| <= L(4e-12+8eps|t|), direction at the bracketing endpoints, order, shapes; non-trivial = run with events completed; distinct = distinct (RHS fingerprint, event times, configuration)".into();
         }
         Mode::C09 => {
